@@ -399,8 +399,8 @@ def human_readable_size(x):
         return "0"
     magnitude = int(math.log(abs(x), 10.24))
     if magnitude > 16:
-        format_str = "%iP"
-        illion = 5
+        # Integer arithmetic, a value this large does not necessarily fit in a float
+        return "{}{}PB".format("-" if x < 0 else "", abs(x) // 1024**5)
     else:
         float_fmt = "%2.1f" if magnitude % 3 == 1 else "%1.2f"
         illion = (magnitude + 1) // 3
